@@ -10,6 +10,9 @@ if ! git apply "$P" 2>/dev/null; then
 fi
 git diff --quiet && { echo "PATCH NOT APPLIED (no change in the scratch tree)"; echo "rc=3"; cd /; rm -rf $T; exit 3; }
 git diff --stat | tail -1
-cd /verif && VERIF_EVIDENCE_DIR=/tmp/evscratch VERIF_REPO=$T VERIF_WORKTAG=.seed$$ timeout ${MUT_TIMEOUT:-1200} ./check $ID $TIER 2>&1 | grep -v "^KNOWN-FINDING" | head -${LINES_MAX:-8}
-echo "rc=${PIPESTATUS[0]}"
-rm -rf $T
+# the whole output goes to a file first: cutting a pipe short would kill the check and falsify its exit status
+cd /verif && VERIF_EVIDENCE_DIR=/tmp/evscratch VERIF_REPO=$T VERIF_WORKTAG=.seed$$ timeout ${MUT_TIMEOUT:-1200} ./check $ID $TIER > $T.out 2>&1
+rc=$?
+grep -v "^KNOWN-FINDING" $T.out | head -${LINES_MAX:-8}
+echo "rc=$rc"
+rm -rf $T $T.out
